@@ -80,6 +80,9 @@ def hook(site, ident):
         flags |= F_STDERR_ORIG
     r.emit([r.simpid, site, ident, occ, flags])
     entries = r.index.get(key)
+    wild = r.index.get((site, '*'))
+    if wild:
+        entries = (entries or []) + wild
     if not entries:
         return
     for i, e in entries:
